@@ -37,7 +37,7 @@ PAIRS = ["wl1_unit~l1", "enet_r1~l1", "wmcp_unit~mcp", "group_singletons~wl1", "
 
 
 def plan(tier, seed):
-    return [dict(name=p, pair=p, reps=REPS[tier] if not p.startswith("sol:") else max(3, REPS[tier] // 3)) for p in PAIRS]
+    return [dict(name=p, pair=p, reps=REPS[tier] if not p.startswith("sol:") else max(6, REPS[tier] // 2)) for p in PAIRS]
 
 
 def run_shard(spec, emit):
@@ -127,6 +127,23 @@ def fun_pair(emit, cid, pair, rng, sample):
         cmp_emit(emit, cid, pair, "prox", [A.prox_1group(np.array([x]), s, j)[0] for j, x in enumerate(w + g)],
                  [B.prox_1d(float(x), s, j) for j, x in enumerate(w + g)])
         cmp_emit(emit, cid, pair, "subdiff_distance", A.subdiff_distance(w, g, ws), B.subdiff_distance(w, g, ws))
+        # the same with the singletons listed in another order: group k is {perm[k]} and carries the weight of perm[k]
+        perm = rng.permutation(p)
+        ptr2, ind2 = C.groups_to_ptr([np.array([j]) for j in perm])
+        A2 = cc(P.WeightedGroupL2(alpha, wts[perm].copy(), ptr2, ind2, pos))
+        cmp_emit(emit, cid, pair, "value[perm]", A2.value(w), B.value(w), None, np.any(w))
+        cmp_emit(emit, cid, pair, "prox[perm]", [A2.prox_1group(np.array([(w + g)[j]]), s, k)[0] for k, j in enumerate(perm)],
+                 [B.prox_1d(float((w + g)[j]), s, j) for j in perm])
+        # the sparse-group penalty with zero group weights is the weighted L1 of its feature weights, whatever the groups
+        for style in ("singletons", "perm", "trap"):
+            groups = [np.array([j]) for j in perm] if style == "singletons" else C.make_groups(rng, p, style=style)
+            ptr3, ind3 = C.groups_to_ptr(groups)
+            A3 = cc(P.WeightedL1GroupL2(alpha, np.zeros(len(groups)), wts.copy(), ptr3, ind3))
+            B3 = cc(P.WeightedL1(alpha, wts.copy()))
+            cmp_emit(emit, cid, pair, "sgroup_value[%s]" % style, A3.value(w), B3.value(w), None, np.any(w))
+            cmp_emit(emit, cid, pair, "sgroup_prox[%s]" % style,
+                     np.concatenate([A3.prox_1group((w + g)[G], s, k) for k, G in enumerate(groups)]),
+                     [B3.prox_1d(float((w + g)[j]), s, j) for G in groups for j in G])
     elif pair == "sgroup_zero_feat~group":
         groups = C.make_groups(rng, p, style=str(rng.choice(["contig", "perm"])))
         ptr, ind = C.groups_to_ptr(groups)
@@ -272,15 +289,20 @@ def sol_pair(emit, cid, pair, rng, sample):
     with warnings.catch_warnings():
         warnings.simplefilter("ignore")
         if pair == "sol:gram~anderson":
-            pen = str(rng.choice(["L1", "L1_plus_L2", "MCP"]))
+            rep = int(cid.rsplit("/r", 1)[1])
+            pen = ["L1", "L1_plus_L2", "MCP"][rep % 3]        # in rotation: the quick tier meets all three
             mk = {"L1": lambda: P.L1(alpha), "L1_plus_L2": lambda: P.L1_plus_L2(alpha, 0.6), "MCP": lambda: P.MCPenalty(alpha, 30.0)}[pen]
             refpen = {"L1": R.RefPenalty("l1", alpha=alpha), "L1_plus_L2": R.RefPenalty("enet", alpha=alpha, l1_ratio=0.6),
                       "MCP": R.RefPenalty("mcp", alpha=alpha, gamma=30.0)}[pen]
+            # both from the same user-supplied start in half of the convex cases (the two solvers must solve the same
+            # problem from any start, not only from zero)
+            w0 = rng.standard_normal(p) * (rng.random(p) < 0.6) if (pen != "MCP" and (rep // 3) % 2 == 0) else None
             wa, _, sa = S.GramCD(tol=tol, max_iter=5000, fit_intercept=False, greedy_cd=bool(rng.integers(0, 2))).solve(
-                X, y, None, cc(mk()))
+                X, y, None, cc(mk()), *(() if w0 is None else (w0.copy(),)))
             dfb = cc(D.Quadratic())
-            wb, _, sb = S.AndersonCD(tol=tol, fit_intercept=False, max_epochs=5000).solve(X, y, dfb, cc(mk()))
-            label = "solution[%s]" % pen
+            wb, _, sb = S.AndersonCD(tol=tol, fit_intercept=False, max_epochs=5000).solve(
+                X, y, dfb, cc(mk()), *(() if w0 is None else (w0.copy(), X @ w0)))
+            label = "solution[%s%s]" % (pen, "" if w0 is None else ",warm")
         elif pair == "sol:estimator~gle":
             which = str(rng.choice(["Lasso", "ElasticNet", "WeightedLasso", "MCPRegression", "SparseLogisticRegression"]))
             icpt = bool(rng.integers(0, 2))
@@ -316,10 +338,12 @@ def sol_pair(emit, cid, pair, rng, sample):
             wb, _, sb = S.AndersonCD(tol=tol, fit_intercept=False, max_epochs=5000).solve(X, y, cc(D.Quadratic()), cc(P.L1(alpha)))
         else:
             refpen = R.RefPenalty("wl1", alpha=alpha, weights=wts)
-            ptr, ind = C.groups_to_ptr([np.array([j]) for j in range(p)])
+            perm = rng.permutation(p) if rng.random() < 0.6 else np.arange(p)     # group g is the singleton {perm[g]}
+            ptr, ind = C.groups_to_ptr([np.array([j]) for j in perm])
             dfa = cc(D.QuadraticGroup(ptr, ind))
             wa, _, sa = S.GroupBCD(tol=tol, fit_intercept=False, max_epochs=5000).solve(
-                X, y, dfa, cc(P.WeightedGroupL2(alpha, wts.copy(), ptr, ind)))
+                X, y, dfa, cc(P.WeightedGroupL2(alpha, wts[perm].copy(), ptr, ind)))
+            label = "solution[%s]" % ("perm" if np.any(perm != np.arange(p)) else "identity")
             wb, _, sb = S.AndersonCD(tol=tol, fit_intercept=False, max_epochs=5000).solve(
                 X, y, cc(D.Quadratic()), cc(P.WeightedL1(alpha, wts.copy())))
     prob = R.RefProblem(X, y, refdf, refpen, icpt)
